@@ -514,6 +514,38 @@ impl Model {
         }
     }
 
+    /// `regulate_for_store(p)` (read-only accessor) prepares a PUBLISH for a store the application keeps itself: it must
+    /// give exactly what the library's own store would hold - the topic the alias stands for on the current connection,
+    /// no Topic Alias, everything else untouched - or an error when the alias is not bound (AL8)
+    pub fn check_regulate(&self, pkt: &Pkt, result: &Result<Pkt, String>, s: &mut Sink) {
+        let Pkt::Publish { ver: Ver::V5, topic, props, qos, retain, dup, id, payload } = pkt else { return };
+        if !self.v5() || self.unsynced || self.lost {
+            return;
+        }
+        s.hit("AL8-regulate-for-store-resolves-like-the-store");
+        let alias = props.iter().find_map(|p| if let (P_TA, PVal::U16(a)) = (p.id, &p.val) { Some(*a) } else { None });
+        let want_topic: Option<Vec<u8>> = if !topic.is_empty() {
+            Some(topic.clone())
+        } else {
+            match alias {
+                Some(a) if self.status == St::Cd => self.bind_out.get(&a).cloned(),
+                _ => None,
+            }
+        };
+        let want_props: Vec<Prop> = props.iter().filter(|x| x.id != P_TA).cloned().collect();
+        match (want_topic, result) {
+            (None, Err(_)) => {}
+            (None, Ok(q)) => s.fail("C13", "AL8-regulate-for-store-resolves-like-the-store", format!("why=resolved-unbound;status={:?}", self.status), format!("regulate_for_store({}) = {} although alias {:?} is not bound on the current connection (receiver table {:?})", pkt.short(), q.short(), alias, self.bind_out.keys().collect::<Vec<_>>())),
+            (Some(t), Err(e)) => s.fail("C13", "AL8-regulate-for-store-resolves-like-the-store", "why=refused".into(), format!("regulate_for_store({}) failed with {} although the topic is {:?}", pkt.short(), e, String::from_utf8_lossy(&t))),
+            (Some(t), Ok(q)) => {
+                let same = matches!(q, Pkt::Publish { topic: qt, props: qp, qos: qq, retain: qr, dup: qd, id: qi, payload: qpl, .. } if *qt == t && *qp == want_props && qq == qos && qr == retain && qd == dup && qi == id && qpl == payload);
+                if !same {
+                    s.fail("C13", "AL8-regulate-for-store-resolves-like-the-store", "why=wrong-packet".into(), format!("regulate_for_store({}) = {}, expected topic {:?}, no alias, everything else unchanged", pkt.short(), q.short(), String::from_utf8_lossy(&t)));
+                }
+            }
+        }
+    }
+
     /// Retransmission at CONNACK(session present) / CONNACK sent: S4, Z2, AL4
     fn check_resend(&mut self, cx: &CallCtx, sends: &[&Ev], s: &mut Sink) {
         s.hit("S4-resend-store-in-order-after-connack");
